@@ -182,6 +182,17 @@ CHECKS["C07"] = dict(
         "flat arrays, integer row access on lazily indexed views.",
    technique="TLA+ list-of-strings model of array programs checked by TLC; every program replayed on real encoded arrays",
    design="6/C07")
+CHECKS["C19"] = dict(
+   text="spec/Records.tla: a table is a function column -> sequence of cells; index / mask / slice / fancy / concatenate / sort-by / "
+        "replace / add-fields act on all columns at once; TLC checks AllColumnsEqualLen, RowsIntact and the action property "
+        "OperandsUnchanged on every program to depth 3 (quick) / 4 (thorough); rows, dict, pandas, iteration and construction (from rows, "
+        "from typed columns, identifier column from an encoded column, another alphabet, text in a numeric column) are observations "
+        "with prescribed outcomes. Every program is replayed on eight table types (Interval, Bed6, BedGraph, SequenceEntry, "
+        "SequenceEntryWithQuality, ChromosomeSize, LocationEntry and a dynamic type with int, DNA-encoded, bool, float, Optional[int], "
+        "list-of-int, str and identifier columns) and the whole pool (results and operands) is compared after the last step.",
+   note=TB + "Sorting is driven on numeric key columns with distinct keys; nested-table columns are not driven; each program runs on three of the eight types.",
+   technique="TLA+ column-aligned table ADT checked by TLC; every program replayed on real bnpdataclass tables",
+   design="6/C19")
 PENDING = {}
 def main():
     props = [json.loads(l)["id"] for l in open(os.path.join(HERE, "properties.jsonl"))]
